@@ -614,3 +614,7 @@ PROPS["C01"]["proofs"] = PROPS["C01"]["proofs"] + ["Bmc.Proofs.EndToEnd.Handshak
 PROPS["C01"]["claim"] += (" END TO END (liveness / key agreement): hsRun_live, hsRun_against_spec_bmc, generated_newV2Session_live (Proofs/EndToEnd/HandshakeC01.lean) — against a BMC "
                           "whose three set-up exchanges end with what the specification's BMC sends (same password and K_G; it answers only the RAKP 3 code it expects), newV2Session AS "
                           "TRANSLATED ON THIS RUN returns a session whose SIK, K1, K2 are the ones the BMC derives on its own from the fields it received.")
+PROPS["C18"]["proofs"] = PROPS["C18"]["proofs"] + ["Bmc.Proofs.EndToEnd.MetricsC18"]
+PROPS["C18"]["claim"] += (" END TO END: generated_session_SendCommand_accounting, generated_sessionless_SendCommand_accounting (Proofs/EndToEnd/MetricsC18.lean) — the Prometheus calls of "
+                          "SendCommand AS TRANSLATED ON THIS RUN, applied to any metric values, satisfy the per-command accounting laws (attempts +1 for this name only, failures +1 exactly "
+                          "when no accepted final response that decodes, retries = closure runs beyond the first, responses per code, other metrics untouched).")
